@@ -278,7 +278,9 @@ func RunDFS(c *Ctx, pool *Pool, scenario string, params any, bound int, maxExecs
 		pool.Map(tasks, func(i int, b []byte, err error) {
 			if err != nil {
 				st.Capped = true
-				st.Viols = append(st.Viols, DFSViolation{Choices: level[i].Prefix, Viol: []string{"worker crashed or timed out: " + err.Error()}, Verdict: "worker-crash"})
+				if v := CrashViol(err); v != nil {
+					st.Viols = append(st.Viols, DFSViolation{Choices: level[i].Prefix, Viol: v, Verdict: "worker-crash"})
+				}
 				return
 			}
 			var r DFSResult
@@ -298,7 +300,9 @@ func RunDFS(c *Ctx, pool *Pool, scenario string, params any, bound int, maxExecs
 		pool.Map(tasks, func(i int, b []byte, err error) {
 			if err != nil {
 				st.Capped = true
-				st.Viols = append(st.Viols, DFSViolation{Choices: level[i].Prefix, Viol: []string{"worker crashed or timed out: " + err.Error()}, Verdict: "worker-crash"})
+				if v := CrashViol(err); v != nil {
+					st.Viols = append(st.Viols, DFSViolation{Choices: level[i].Prefix, Viol: v, Verdict: "worker-crash"})
+				}
 				return
 			}
 			var r DFSResult
